@@ -21,7 +21,7 @@ ASSUMPTIONS = COMMON_ASSUMPTIONS + [
 TRUSTED_BASE = TRUSTED
 
 
-def native(shape, seed, k_edit=None, **kw):
+def native(shape, seed, k_edit=None, **kw):  # kw may carry container="list"
     res = kalman.native_update((shape[0], shape[1], shape[3] if len(shape) > 3 else shape[2]), seed, k_edit=k_edit, **kw)
     return res[0], res[1]
 
@@ -33,16 +33,22 @@ def check(run):
         for ob in rep.obligations:
             if ob.name.startswith("C06."):
                 ob.name = "C05.via." + ob.name  # decision clauses are reported under C06; kept here for completeness of the body's VCs
-        triage_generic(run, rep, lambda shape, seed: native(shape, seed, 3.0 if c.enabled else None), "sensor_model")
+        triage_generic(run, rep, lambda shape, seed, container="set": native(shape, seed, 3.0 if c.enabled else None, container=container), "sensor_model")
     rep = run.verify(pyekf.SensorModelModel(), cs)
-    triage_generic(run, rep, lambda shape, seed: native(shape, seed), "SensorModel.model")
+    triage_generic(run, rep, lambda shape, seed, container="set": native(shape, seed, container=container), "SensorModel.model")
     rep = run.verify(pyekf.SensorModelInit(), pyekf.sensor_init_callees())
-    triage_generic(run, rep, lambda shape, seed: native([max(shape[0], 2), shape[1], shape[2], max(shape[3], 2)], seed), "SensorModel.__init__")
+    triage_generic(run, rep, lambda shape, seed, container="set": native([max(shape[0], 2), shape[1], shape[2], max(shape[3], 2)], seed, container=container), "SensorModel.__init__")
+    rep = run.verify(pyekf.ConstructSensors(), pyekf.sensors_callees())
+    triage_generic(run, rep, lambda shape, seed, container="set": native([max(shape[0], 2), shape[1], shape[2], max(shape[3], 2)], seed, container=container), "_construct_sensors")
+    from checks import C03
+
+    rep = run.verify(pyekf.JacobianContract("sensor_jacobian"), cs)
+    C03.triage(run, rep)
     if run.tier == "thorough" or any(r.status != "ok" for r in run.reports) or run.undecided:
         shapes = [(2, 0, 0, 1), (3, 1, 0, 2), (2, 1, 0, 3), (4, 0, 0, 2), (1, 0, 0, 2)] if run.tier == "thorough" else [(3, 1, 0, 2), (2, 0, 0, 1)]
         fails = 0
         for shp in shapes:
-            for kw in ({}, {"reading_equals_prediction": True}):
+            for kw in ({}, {"reading_equals_prediction": True}, {"container": "list"}):
                 run.native_runs += 1
                 problems, sc = native(shp, run.seed, None, **kw)
                 if problems:
